@@ -21,6 +21,7 @@ tables = `.` | rows joined by `;` (see `Tables`).
 import CaddyModel.C20.Model
 import CaddyModel.C20.FEnc
 import CaddyModel.C20.Plumb
+import CaddyModel.C10.Glue
 
 namespace CaddyModel.C20
 
@@ -98,8 +99,7 @@ def parseVal (kind val : String) : Option FVal :=
   else none
 
 /-! oracle tables:
-  T,<raw>,<trimmed>              strings.TrimSpace
-  S,<value>[,<host>,<port>]      net.SplitHostPort (2 columns = error)
+  T,… / S,…                      (accepted and ignored: strings.TrimSpace and net.SplitHostPort are byte-level models now)
   P,<host>[,<ipbytes>]           net.ParseIP (4 bytes when To4() != nil, else 16; 2 columns = nil)
   M,<masked|nil>,<string>        IP.String() of the masked address
   U,<s>[,<pre>,<post>,<force>,<q>]   url.Parse; q = `.` | k=v|v&k=v
@@ -233,8 +233,9 @@ def hash4 (s : Bytes) : Bytes :=
 
 def oraclesOf (t : Tables) : Oracles where
   H := hash4
-  trim := fun s => (lookup t.trim s).getD (str "?oracle-miss")
-  shp := fun s => (lookup t.shp s).getD none
+  -- byte-level models shared with C10 (no table): strings.TrimSpace, net.SplitHostPort
+  trim := CaddyModel.C10.trimSpace
+  shp := CaddyModel.C10.splitHostPort
   parseIP := fun s => (lookup t.ip s).getD none
   ipStr := fun m => (lookup t.ipStr m).getD (str "?oracle-miss")
   parseURL := fun s => (lookup t.url s).getD none
@@ -395,8 +396,9 @@ def handle : List String → String
   | ["req", c, remote, split, cip, proto, method, host, uri, h, te] =>
     match parseBool c, Hex.decode remote, parseSplit split, parseOptBytes cip, Hex.decode proto,
           Hex.decode method, Hex.decode host, Hex.decode uri, parseHdr h, parseOptList te with
-    | some c, some remote, some split, some cip, some proto, some method, some host, some uri, some h, some te =>
-      "ok " ++ showReq ⟨remote, split, cip, proto, method, host, uri, h, te⟩ c
+    | some c, some remote, some _, some cip, some proto, some method, some host, some uri, some h, some te =>
+      -- the <split> field is only checked by the harness; the model computes net.SplitHostPort itself
+      "ok " ++ showReq ⟨remote, CaddyModel.C10.splitHostPort remote, cip, proto, method, host, uri, h, te⟩ c
     | _, _, _, _, _, _, _, _, _, _ => "bad-op"
   | ["flt", filter, key, kind, val, tables] =>
     match parseFilter filter, Hex.decode key, parseVal kind val, parseTables tables with
